@@ -330,6 +330,9 @@ func specIsCtl(m hsms.Message) bool {
 //@ loop 1 preserves [nodrop]   zzCalls("hsms.(TransportRuntime).TCPDown") == 0
 //@ loop 1 preserves [anchor]   zzCalls("hsms.(TransportRuntime).WriteMessage") == 1 ==> zzCalls("hsmsss.(*transport).monoNanos") == 1 &&
 //@                             zzSeq("hsmsss.(*transport).monoNanos") < zzSeq("hsms.(TransportRuntime).WriteMessage")
+//@ loop 1 preserves [liveinflight] sr != nil && zzCalls("hsmsss.linktestFailureStep") == 1 && zzCalls("hsmsss.linktestDisconnectRecheck") == 0 ==>
+//@                             zzSeq("hsms.(TransportRuntime).WriteMessage") < zzSeq("hsmsss.(suppressionRuntime).DataMsgInflight") &&
+//@                             zzArg[int64]("hsmsss.linktestFailureStep", 3) == zzRet[int64]("hsmsss.(suppressionRuntime).DataMsgInflight")
 //@ loop 1 preserves [stepanchor] zzCalls("hsmsss.linktestFailureStep") == 1 ==>
 //@                             zzArg[int64]("hsmsss.linktestFailureStep", 2) == zzRet[int64]("hsmsss.(*transport).monoNanos")
 //@ ensures [down] zzCalls("hsms.(TransportRuntime).TCPDown") <= 1
@@ -423,3 +426,15 @@ var (
 //@                     zzSeq("context.(Context).Err") > zzSeq("hsmsss.(*ConnectionMetrics).incReadErrCount") &&
 //@                     zzRet[error]("context.(Context).Err") == nil && zzRecv[zzCtx]("context.(Context).Err") == old(t.genCtx)
 //@ ensures [readerr]   zzCalls("hsmsss.(*ConnectionMetrics).incReadErrCount") <= 1
+
+// ---- C10 (Close side, HSMS-SS transport): the socket a racing accept may have published is looked for only after the
+// accept goroutine has been joined, so it cannot be missed.
+
+//@ func (*transport).Stop
+//@ nosafety nil-deref nil-iface
+//@ noframe
+//@ modifies nothing
+//@ requires t != nil
+//@ ensures [latejoin] zzCalls("net.(Conn).Close") == 2 ==> zzSeq("sync.(*WaitGroup).Wait:accept") < zzSeq("net.(Conn).Close")
+//@ ensures [accept]   zzCalls("sync.(*WaitGroup).Wait:accept") == 1
+//@ cover [both] zzCalls("net.(Conn).Close") == 2
